@@ -57,6 +57,31 @@ func (e *emitter) arg(expr string) string {
 	return fmt.Sprintf("rt.Arg(h, %d, %s)", s, expr)
 }
 
+// resName names the variable of Results target i. Under the `names` quirk the caller's variables
+// are called like the generated per-type variables (v1, v2, …).
+func (e *emitter) resName(i int) string {
+	if e.p.Quirk == "names" {
+		// A result whose type is the j-th Params type is called v<j+1>: that is the name of the
+		// generated variable of that very type (type ids are handed out in rendering order, Params first).
+		t := e.p.Results[i]
+		first := true
+		for k := 0; k < i; k++ {
+			if e.p.Results[k] == t {
+				first = false
+			}
+		}
+		if first {
+			for j, pt := range e.p.Params {
+				if pt == t {
+					return fmt.Sprintf("v%d", j+1)
+				}
+			}
+		}
+		return fmt.Sprintf("v%d", 50+i)
+	}
+	return fmt.Sprintf("r%d", i)
+}
+
 // argFn wraps a function argument. A method value `rv.M` is, for every second program, wrapped at
 // its receiver (`rt.Arg(h, k, rv).M`): the receiver of a method value is a user expression that Go
 // evaluates when the method value is evaluated, so it too must be hoisted into the prologue.
@@ -479,7 +504,7 @@ func Emit(p *ps.Program, pkg, fnsPkg string) *Files {
 		e.w("func %s(%s context.Context, h *rt.H) error {\n", fn, cx)
 	}
 	for i, t := range p.Results {
-		e.w("\tr%d := mkT%d(rt.Sentinel)\n", i, t)
+		e.w("\t%s := mkT%d(rt.Sentinel)\n", e.resName(i), t)
 	}
 	e.w("\trv := &recvP%d{h: h}\n\t_ = rv\n", p.PID)
 	errVar := "err"
@@ -511,7 +536,7 @@ func Emit(p *ps.Program, pkg, fnsPkg string) *Files {
 	}
 	recordResults := func(ind string) {
 		for i, t := range p.Results {
-			e.w("%sh.Result(%d, valT%d(r%d))\n", ind, i, t, i)
+			e.w("%sh.Result(%d, valT%d(%s))\n", ind, i, t, e.resName(i))
 		}
 	}
 	switch site {
@@ -535,7 +560,7 @@ func Emit(p *ps.Program, pkg, fnsPkg string) *Files {
 		case "results":
 			var as []string
 			for i := range p.Results {
-				as = append(as, e.arg(fmt.Sprintf("&r%d", i)))
+				as = append(as, e.arg("&"+e.resName(i)))
 			}
 			e.w("\t\tcff.Results(%s),\n", strings.Join(as, ", "))
 		case "conc":
@@ -626,7 +651,13 @@ func Emit(p *ps.Program, pkg, fnsPkg string) *Files {
 	// ----- assemble main file; line numbers shift by the header length.
 	body := e.body.String()
 	var hdr strings.Builder
-	hdr.WriteString("//go:build cff\n\n")
+	if p.PID%5 == 3 {
+		// a language-version guard next to the cff tag: in the go 1.22 scratch module it selects the
+		// pre-1.22 (shared) loop-variable semantics for this file and for the file cff generates from it
+		hdr.WriteString("//go:build cff && go1.18\n\n")
+	} else {
+		hdr.WriteString("//go:build cff\n\n")
+	}
 	fmt.Fprintf(&hdr, "package %s\n\nimport (\n\t\"context\"\n", pkg)
 	if reErrs.MatchString(body) {
 		hdr.WriteString("\t\"errors\"\n")
